@@ -131,13 +131,7 @@ def form_case(ctx, form):
         if m["outcome"] == "ok":
             d = diff_obs(canon_obs(obs), canon_obs(m))
             if d:
-                # the model copies the open finding F47; a tree in which it is repaired agrees with the repaired variant
-                m2 = ctx.driver.call("choices.model", f47_fixed=True, **model_input(form))
-                if m2["outcome"] == "ok" and not diff_obs(canon_obs(obs), canon_obs(m2)):
-                    ctx.count("agrees-with-F47-repaired-model")
-                    ctx.notes["F47_repaired_in_tree"] = True
-                else:
-                    ctx.mismatch("observation: " + d[:600], case, "see detail", "see detail")
+                ctx.mismatch("observation: " + d[:600], case, "see detail", "see detail")
         elif m["outcome"] == "error":
             ctx.mismatch("model rejects (" + m["kind"] + "), implementation accepts", case, "ok", m["kind"])
             ctx.fail(Failure("accepted-" + m["kind"], f"workbook the model rejects with {m['kind']} was accepted", case))
@@ -477,24 +471,12 @@ def match_f41(f: Failure) -> bool:
     return any(isinstance(v, str) and any(ch in v for ch in SMART_CHARS) for r in rows for v in r.values())
 
 
-def match_f47(f: Failure) -> bool:
-    """The last-saved instance is read but not declared, and the only `${last-saved#…}` references of the form sit
-    in bind cells of `begin group` / `begin repeat` rows (any such reference on a question row declares it)."""
-    if not (f.kind == "instance-undeclared" and "__last-saved" in f.detail) and not (
-            f.kind == "external-decl" and "not declared" in f.detail and "__last-saved" in f.detail):
-        return False
-    rows = (f.case.get("form") or {}).get("survey", [])
-    in_sec = any("last-saved#" in str(v) for r in rows if str(r.get("type", "")).startswith("begin") for k, v in r.items())
-    in_q = any("last-saved#" in str(v) for r in rows if not str(r.get("type", "")).startswith(("begin", "end")) for k, v in r.items())
-    return in_sec and not in_q
-
-
+# regression case of the repaired finding F47 (a1c327a): last-saved read only by a repeat's bind
 F47_FORM = {"survey": [{"type": "text", "name": "q", "label": "Q"},
                        {"type": "begin repeat", "name": "r", "label": "R", "relevant": "${last-saved#q} = 'a'"},
                        {"type": "text", "name": "t", "label": "T"}, {"type": "end repeat"}]}
 
-MATCHERS = {"F41-smart-quotes-in-choice-cells": match_f41, "F42-list-names-whitespace-ids": match_f42,
-            "F47-last-saved-in-section-bind": match_f47}
+MATCHERS = {"F41-smart-quotes-in-choice-cells": match_f41, "F42-list-names-whitespace-ids": match_f42}
 
 
 def replay(ctx, payload, bs):
